@@ -18,18 +18,24 @@ import (
 	"fmt"
 	"net/url"
 	"os"
+	"regexp"
 	"strconv"
 	"strings"
 	"time"
 
 	"github.com/prometheus/client_golang/prometheus"
 
+	"github.com/cloudflare/pint/internal/config"
+	"github.com/cloudflare/pint/internal/discovery"
 	"github.com/cloudflare/pint/internal/promapi"
+	"github.com/cloudflare/pint/internal/reporter"
 	"github.com/cloudflare/pint/verifharness/pipe"
 	"github.com/cloudflare/pint/verifharness/promsrv"
 )
 
 type c15Case struct {
+	Inc      string   `json:"inc"` // none | hit | miss: include patterns vs the rule file path
+	Exc      string   `json:"exc"`
 	Ep       string   `json:"ep"`
 	Modes    []string `json:"modes"`
 	ID       int      `json:"id"`
@@ -60,7 +66,10 @@ func c15Body(e promsrv.Entry, form url.Values) string {
 	case strings.HasSuffix(e.Path, "/api/v1/query"):
 		return `{"status":"success","data":{"resultType":"vector","result":[{"metric":{},"value":[1700000000,"1"]}]}}`
 	case strings.HasSuffix(e.Path, "/api/v1/query_range"):
-		return `{"status":"success","data":{"resultType":"matrix","result":[]}}`
+		if form.Get("query") == "count(my_up)" {
+			return `{"status":"success","data":{"resultType":"matrix","result":[]}}`
+		}
+		return `{"status":"success","data":{"resultType":"matrix","result":[{"metric":{},"values":[[1700000000,"1"]]}]}}`
 	case strings.HasSuffix(e.Path, "/api/v1/status/config"):
 		return `{"status":"success","data":{"yaml":"global:\n  scrape_interval: 30s\n  external_labels:\n    cluster: \"a\"\n"}}`
 	case strings.HasSuffix(e.Path, "/api/v1/status/flags"):
@@ -87,6 +96,16 @@ var c15Check = map[string]string{
 	"metadata":    "promql/counter",
 }
 
+// path patterns of the routing dimension (the rule file is <dir>/rules.yml; pint anchors the patterns)
+var c15Pattern = map[string]string{"hit": ".*rules\\.yml", "miss": ".*/other/.*"}
+
+func c15Regexps(kind string) []*regexp.Regexp {
+	if p := c15Pattern[kind]; p != "" {
+		return []*regexp.Regexp{regexp.MustCompile("^" + p + "$")}
+	}
+	return nil
+}
+
 const c15Rules = `groups:
 - name: g
   rules:
@@ -108,8 +127,15 @@ func c15HCL(srvs []*promsrv.Server, cs c15Case) string {
 	case "query_range":
 		extra = "rule {\n  alerts {\n    range = \"1h\"\n    step = \"1m\"\n    resolve = \"5m\"\n  }\n}\n"
 	}
-	return fmt.Sprintf("prometheus \"prom\" {\n  uri = %q\n  failover = [%s]\n  timeout = %q\n  required = %v\n  rateLimit = 10000\n  concurrency = 4\n}\nchecks {\n  enabled = [%q]\n}\n%s",
-		srvs[0].URL(), strings.Join(fo, ", "), c15Timeout.String(), cs.Required, c15Check[cs.Ep], extra)
+	route := ""
+	if p := c15Pattern[cs.Inc]; p != "" {
+		route += fmt.Sprintf("  include = [%q]\n", p)
+	}
+	if p := c15Pattern[cs.Exc]; p != "" {
+		route += fmt.Sprintf("  exclude = [%q]\n", p)
+	}
+	return fmt.Sprintf("prometheus \"prom\" {\n  uri = %q\n  failover = [%s]\n  timeout = %q\n  required = %v\n  rateLimit = 10000\n  concurrency = 4\n  uptime = \"my_up\"\n%s}\nchecks {\n  enabled = [%q]\n}\n%s",
+		srvs[0].URL(), strings.Join(fo, ", "), c15Timeout.String(), cs.Required, route, c15Check[cs.Ep], extra)
 }
 
 // c15Holes: a listening upstream saw no request although a later one did. The code under test walks
@@ -143,7 +169,13 @@ func c15Run(cs c15Case) (rec map[string]any, err error) {
 }
 
 func c15RunOnce(cs c15Case) (rec map[string]any, err error) {
-	rec = map[string]any{"ev": "Case", "id": cs.ID, "modes": cs.Modes, "ep": cs.Ep, "required": cs.Required}
+	if cs.Inc == "" {
+		cs.Inc = "none"
+	}
+	if cs.Exc == "" {
+		cs.Exc = "none"
+	}
+	rec = map[string]any{"ev": "Case", "id": cs.ID, "modes": cs.Modes, "ep": cs.Ep, "required": cs.Required, "inc": cs.Inc, "exc": cs.Exc}
 	// ---- phase A: one call on the real FailoverGroup
 	srvs, err := c15Servers(cs.Modes)
 	if err != nil {
@@ -154,12 +186,12 @@ func c15RunOnce(cs c15Case) (rec map[string]any, err error) {
 		proms = append(proms, promapi.NewPrometheus("prom", s.URL(), "", nil, c15Timeout, 4, 10000, nil))
 	}
 	reg := prometheus.NewRegistry()
-	fg := promapi.NewFailoverGroup("prom", srvs[0].URL(), proms, cs.Required, "up", nil, nil, nil)
+	fg := promapi.NewFailoverGroup("prom", srvs[0].URL(), proms, cs.Required, "up", c15Regexps(cs.Inc), c15Regexps(cs.Exc), nil)
 	fg.StartWorkers(reg)
 	ctx := context.Background()
 	var cerr error
 	var panicked string
-	func() {
+	call := func() {
 		defer func() {
 			if r := recover(); r != nil {
 				panicked = fmt.Sprint(r)
@@ -169,7 +201,7 @@ func c15RunOnce(cs c15Case) (rec map[string]any, err error) {
 		case "query":
 			_, cerr = fg.Query(ctx, "count(up)")
 		case "query_range":
-			_, cerr = fg.RangeQuery(ctx, "count(up)", promapi.NewRelativeRange(time.Hour, time.Minute))
+			_, cerr = fg.RangeQuery(ctx, "count(up)", c14Range{time.Hour, time.Minute}) // fixed window: a repeated call is the identical question
 		case "config":
 			_, cerr = fg.Config(ctx, 0)
 		case "flags":
@@ -177,9 +209,29 @@ func c15RunOnce(cs c15Case) (rec map[string]any, err error) {
 		case "metadata":
 			_, cerr = fg.Metadata(ctx, "up")
 		}
-	}()
+	}
+	call()
+	counts1 := c15Counts(srvs)
+	err1 := cerr
+	// the same question again on the same group (skipped when it would wait for a timeout again)
+	counts2 := []int{-1, -1, -1}
+	again := true
+	for _, m := range cs.Modes {
+		if m == promsrv.Timeout {
+			again = false
+		}
+	}
+	if again && panicked == "" {
+		call()
+		counts2 = c15Counts(srvs)
+		for i := range counts2 {
+			counts2[i] -= counts1[i]
+		}
+	}
+	cerr = err1
+	enabled := fg.IsEnabledForPath("/x/rules.yml")
 	fg.Close(reg)
-	a := map[string]any{"counts": c15Counts(srvs), "ok": cerr == nil && panicked == "", "panic": panicked,
+	a := map[string]any{"counts": counts1, "counts2": counts2, "enabled": enabled, "ok": cerr == nil && panicked == "", "panic": panicked,
 		"err": "none", "unavailable": false, "unsupported": false, "at": 0, "strict": false, "text": ""}
 	if cerr != nil {
 		a["text"] = cerr.Error()
@@ -205,7 +257,7 @@ func c15RunOnce(cs c15Case) (rec map[string]any, err error) {
 		}
 	} else {
 		// success is attributed to the last upstream that received a request
-		for i, n := range c15Counts(srvs) {
+		for i, n := range counts1 {
 			if n > 0 {
 				a["at"] = i + 1
 			}
@@ -226,26 +278,82 @@ func c15RunOnce(cs c15Case) (rec map[string]any, err error) {
 		return nil, err
 	}
 	defer os.RemoveAll(dir)
+	hcl := c15HCL(srvs, cs)
 	res := pipe.Lint(dir, map[string][]byte{"rules.yml": []byte(c15Rules)}, []string{"rules.yml"},
-		pipe.Opts{Strict: true, Config: c15HCL(srvs, cs), Command: "lint"})
-	probs := []map[string]any{}
-	for _, r := range res.Reports {
-		probs = append(probs, map[string]any{"reporter": r.Reporter, "summary": r.Summary, "severity": r.Severity})
+		pipe.Opts{Strict: true, Config: hcl, Command: "lint", Offline: true}) // parsing only
+	b := c15Online(dir, hcl, res.RawEntries)
+	b["counts"], b["check"] = c15Counts(srvs), c15Check[cs.Ep]
+	if res.CfgErr+res.FindErr != "" {
+		b["cfgerr"] = res.CfgErr + res.FindErr
 	}
-	ran := false
-	for _, e := range res.Entries {
-		for _, c := range e.Checks {
-			if strings.HasPrefix(c, c15Check[cs.Ep]) {
-				ran = true
+	uptime := false
+	for _, s := range srvs {
+		for _, e := range s.Log() {
+			if e.Form["query"] == "count(my_up)" {
+				uptime = true
 			}
 		}
 	}
-	rec["b"] = map[string]any{"counts": c15Counts(srvs), "problems": probs, "panic": res.Panic != "", "paniclog": res.Panic,
-		"cfgerr": res.CfgErr + res.FindErr, "check": c15Check[cs.Ep], "ran": ran}
+	b["uptime"] = uptime
+	rec["b"] = b
 	for _, s := range srvs {
 		s.Close()
 	}
 	return rec, nil
+}
+
+// c15Online runs the online checks the way cmd/pint/scan.go does (configuration loader, Prometheus generator,
+// GetChecksForEntry, Check) and then reads what was registered as disabled, through the real Summary.
+func c15Online(dir, hcl string, entries []discovery.Entry) (b map[string]any) {
+	b = map[string]any{"problems": []map[string]any{}, "panic": false, "paniclog": "", "cfgerr": "", "ran": false,
+		"disabled": []map[string]any{}}
+	defer func() {
+		if r := recover(); r != nil {
+			b["panic"], b["paniclog"] = true, fmt.Sprint(r)
+		}
+	}()
+	cfg, err := pipe.LoadConfig(dir, hcl)
+	if err != nil {
+		b["cfgerr"] = err.Error()
+		return b
+	}
+	gen := config.NewPrometheusGenerator(cfg, prometheus.NewRegistry())
+	defer gen.Stop()
+	if err := gen.GenerateStatic(); err != nil {
+		b["cfgerr"] = err.Error()
+		return b
+	}
+	ctx := context.WithValue(context.Background(), config.CommandKey, config.LintCommand)
+	ctx = context.WithValue(ctx, promapi.AllPrometheusServers, gen.Servers())
+	probs := []map[string]any{}
+	for _, entry := range entries {
+		for _, chk := range cfg.GetChecksForEntry(ctx, gen, entry) {
+			if !chk.Meta().Online {
+				continue
+			}
+			b["ran"] = true
+			for _, p := range chk.Check(ctx, entry, entries) {
+				probs = append(probs, map[string]any{"reporter": p.Reporter, "summary": p.Summary, "severity": p.Severity.String()})
+			}
+		}
+	}
+	b["problems"] = probs
+	summary := reporter.NewSummary(nil)
+	for _, prom := range gen.Servers() {
+		for api, names := range prom.GetDisabledChecks() {
+			summary.MarkCheckDisabled(prom.Name(), api, names)
+		}
+	}
+	dis := []map[string]any{}
+	for _, pd := range summary.GetPrometheusDetails() {
+		for _, dc := range pd.DisabledChecks {
+			for _, c := range dc.Checks {
+				dis = append(dis, map[string]any{"prom": pd.Name, "api": dc.API, "check": c})
+			}
+		}
+	}
+	b["disabled"] = dis
+	return b
 }
 
 func init() {
